@@ -49,9 +49,14 @@ def gen_thread(rng, tid, nops, big, avoid=()):
     # decoded with FASTUPSAMPLE; "errstr_two_instances" (F-C15-2, fixed): no cross-instance query.  Both are
     # regression cases in corpus/C15 now, so nothing is steered around at present.
     risky = set()
+    def limits():
+        """(scan limit, memory limit in MB) for decode/transform calls: mostly none"""
+        sl = rng.choice([1, 2, 3, 5, 9, 10, 11, 500]) if rng.chance(1, 4) else 0
+        mm = rng.choice([1, 1, 2, 4, 16]) if rng.chance(1, 5) else 0
+        return sl, mm
     for k in range(nops):
         r = rng.below(100)
-        if r < 22:
+        if r < 18:
             prec = rng.choice([8, 8, 8, 8, 12, 16])
             fl = rng.below(64) | (rng.below(7) << 8) | (rng.below(3) << 12)
             if prec == 16:
@@ -61,43 +66,58 @@ def gen_thread(rng, tid, nops, big, avoid=()):
             pf = rng.choice(PF_RGBLIKE + [6] if not (fl & 8) else PF_RGBLIKE + [6])
             ss = rng.choice(SS) if pf != 6 else 3
             slot = rng.below(4)
-            ops.append("comp 0 %d %d %d %d %d %d %d %d %d" % (slot, prec, dim(), dim(), pf, ss, rng.range(1, 100), fl, rng.below(1 << 30)))
+            mm = rng.choice([1, 2, 8]) if rng.chance(1, 7) else 0
+            ops.append("comp 0 %d %d %d %d %d %d %d %d %d %d" % (slot, prec, dim(), dim(), pf, ss, rng.range(1, 100), fl, rng.below(1 << 30), mm))
             have.add(slot)
             if prec == 12 and not (fl & 8) and ss == 2:
                 risky.add(slot)
             else:
                 risky.discard(slot)
-        elif r < 40:
+        elif r < 34:
             slot, dfl = rng.below(4), rng.below(8)
             if "merged12_odd_height" in avoid and slot in risky:
                 dfl &= ~1
-            ops.append("decomp %d %d %d %d %d" % (rng.choice([1, 1, 2]), slot, rng.choice(PF), rng.below(16), dfl))
-        elif r < 48:
+            ops.append("decomp %d %d %d %d %d %d %d" % ((rng.choice([1, 1, 2]), slot, rng.choice(PF), rng.below(16), dfl) + limits()))
+        elif r < 41:
             xs, xd = rng.below(4), rng.below(4)
-            ops.append("xform 2 %d %d %d %d" % (xs, xd, rng.choice(TJXOP), rng.choice([0, 0, 1, 2, 8, 16, 32, 64, 1 | 16])))
+            ops.append("xform 2 %d %d %d %d %d %d" % ((xs, xd, rng.choice(TJXOP), rng.choice([0, 0, 1, 2, 8, 16, 32, 64, 1 | 16])) + limits()))
             if xs != xd and xs in risky:
                 risky.add(xd)        # never cleared here: the harness leaves xd alone when the source is empty
-        elif r < 54:
+        elif r < 45:
             yseed = rng.below(1 << 30)
             ops.append("yuvenc 0 %d %d %d %d %d" % (dim(), dim(), rng.choice(PF_RGBLIKE), rng.choice(SS), yseed))
-        elif r < 59:
+        elif r < 48:
             ops.append("yuvdec 1 %d %d" % (rng.below(4), rng.choice(PF_RGBLIKE)))
-        elif r < 69:
+        elif r < 51:
+            ops.append("planes %d %d %d %d %d %d" % (dim(), dim(), rng.choice(PF_RGBLIKE), rng.choice(SS), rng.below(1 << 30), rng.below(4)))
+        elif r < 55:
+            ops.append("crop %d %d %d %d %d %d %d %d" % (rng.choice([1, 2]), rng.below(4), rng.choice(PF_RGBLIKE), rng.below(64), rng.below(256),
+                                                        rng.below(256), rng.below(256), rng.below(16)))
+        elif r < 57:
+            ops.append("icc %d %d %d %d" % (rng.choice([1, 100, 3000, 65519, 65520, 69000]), rng.below(1 << 30), dim(), dim()))
+        elif r < 60:
+            prec = rng.choice([8, 8, 12, 16])
+            ops.append("file %d %d %d %d %d %d %d" % (rng.below(3), prec, dim(), dim(), rng.choice([0, 1, 6, 7, 8, 9, 10]), rng.below(1 << 30), rng.below(2)))  # no X-padded formats: the pad byte is unspecified
+        elif r < 65:
+            ops.append("ljdec %d %d %d %d" % (rng.below(4), rng.below(4), rng.choice([0, 6, 14, 62, 254, rng.below(255)]), rng.below(3)))
+        elif r < 68:
+            ops.append("ljcomp %d %d %d %d %d %d" % (rng.below(4), dim(), dim(), rng.range(1, 100), rng.below(64), rng.below(1 << 30)))
+        elif r < 75:
             marker += 1
             b0 = (tid * 8 + 1 + (marker >> 8)) & 0xFF
             if b0 == 0xFF:
                 b0 = 0x7E
             ops.append("badhdr %d %d %d" % (rng.choice([1, 2]), b0, marker & 0xFF))
-        elif r < 74:
+        elif r < 79:
             ops.append("trunc 1 %d %d %d" % (rng.below(4), rng.below(100), rng.choice(PF_RGBLIKE)))
-        elif r < 80:
+        elif r < 83:
             ops.append("badarg %d %d" % (rng.below(3), rng.below(4)))
-        elif r < 82:
+        elif r < 85:
             ops.append("geterr %d" % rng.below(3))
-        elif r < 84:
+        elif r < 87:
             # cross-instance ownership query (not generated while the pending finding errstr_two_instances still fails)
             ops.append(("geterr %d" if "errstr_two_instances" in avoid else "ownerr %d") % rng.below(3))
-        elif r < 87:
+        elif r < 88:
             ops.append("gerr")
         elif r < 93:
             ops.append("helper %d %d %d %d" % (rng.below(7), rng.range(1, 4000), rng.range(1, 4000), rng.below(64)))
@@ -108,7 +128,7 @@ def gen_thread(rng, tid, nops, big, avoid=()):
             ops.append("destroy %d" % h)
             ops.append("init %d %d" % (h, h))
         elif r < 99:
-            ops.append("set %d %d %d" % (rng.below(3), rng.choice([1, 2, 3, 4, 9, 10, 11, 13, 14]), rng.range(-2, 120)))
+            ops.append("set %d %d %d" % (rng.below(3), rng.choice([1, 2, 3, 4, 9, 10, 11, 13, 14, 23, 24]), rng.range(-2, 120)))
         else:
             ops.append("yield %d" % rng.below(300))
     return ["%d %s" % (tid, o) for o in ops]
@@ -225,6 +245,12 @@ def run_program(ctx, exe, flavour, lines, env, tag):
         e["TSAN_OPTIONS"] = "halt_on_error=1 exitcode=66 second_deadlock_stack=1 report_signal_unsafe=0"
     if flavour == "asan":
         e["ASAN_OPTIONS"] = "detect_leaks=0 abort_on_error=0"
+    tmpd = os.path.join(core.BUILD, "c15tmp")
+    os.makedirs(tmpd, exist_ok=True)
+    e["C15_TMP"] = tmpd
+    if flavour == "simd" and WATCH.get("file"):
+        e["C15_WATCH"] = WATCH["file"]
+        e["C15_WATCH_POLL"] = "1"
     rc, out, err = sh2([exe], input=inp, timeout=600, env=e)
     text = out.decode("utf-8", "replace")
     res = {"rc": rc, "ok": True}
@@ -258,6 +284,13 @@ def run_program(ctx, exe, flavour, lines, env, tag):
         res["ok"] = False
         return res
     for l in text.split("\n"):
+        mw = re.match(r"WATCH (\S+) (.*)", l)
+        if mw:
+            ctx.violation("process-wide static-storage object `%s` of the library (inventory: never written) changed its value while %d threads "
+                          "ran operations on their own instances: shared mutable state (%s)" % (mw.group(1), len(set(x.split()[0] for x in lines)), mw.group(2)),
+                          dict(replay, line=l), signature="static-written:" + mw.group(1))
+            res["ok"] = False
+            continue
         m = re.match(r"T(\d+) (OK|DIFF|OWN|OWNSOLO)(.*)", l)
         if not m:
             continue
@@ -276,6 +309,31 @@ def run_program(ctx, exe, flavour, lines, env, tag):
     return res
 
 
+WATCH = {}
+
+
+def make_watch_list(ctx, exe):
+    """addresses (in the non-PIE un-instrumented harness) of every writable non-TLS data symbol the archives define
+    (names from the regenerated gen/GenGlobalsBin.v): the harness snapshots them before the first library call and
+    reports any change while / after the threads run"""
+    try:
+        txt = open(os.path.join(core.COQ, "gen", "GenGlobalsBin.v")).read()
+    except OSError:
+        return
+    names = set(m.group(1) for m in re.finditer(r'mk_bsym "([^"]+)" "[^"]*" (Data|Bss|OtherW) ', txt))
+    rc, out, err = sh2(["nm", "-S", "--defined-only", exe], timeout=120)
+    rows = []
+    for l in out.decode("utf-8", "replace").split("\n"):
+        f = l.split()
+        if len(f) == 4 and f[2] in "bBdD" and f[3].split(".")[0] in names:
+            rows.append("%s %s %d" % (f[3], f[0], int(f[1], 16)))
+    path = exe + ".watch"
+    open(path, "w").write("\n".join(rows) + "\n")
+    WATCH["file"] = path if rows else None
+    WATCH["n"] = len(rows)
+    ctx.cov["watched_static_objects"] = [r.split()[0] for r in rows]
+
+
 def parse_inventory(path):
     """entries of coq/gen/GenGlobals.v -> list of dicts (for diagnostics and the binary cross-check)"""
     ents = []
@@ -283,7 +341,7 @@ def parse_inventory(path):
         txt = open(path).read()
     except OSError:
         return ents
-    for m in re.finditer(r'mk_gvar "((?:[^"]|"")*)" "([^"]*)" "([^"]*)" "([^"]*)" "((?:[^"]|"")*)" (\d+) (\(?\w+)', txt):
+    for m in re.finditer(r'mk_gvar "((?:[^"]|"")*)" "([^"]*)" "([^"]*)" "([^"]*)" "((?:[^"]|"")*)" (\d+) \[[^\]]*\] (\(?\w+)', txt):
         ents.append({"name": m.group(1), "file": m.group(2), "fn": m.group(3), "link": m.group(4), "type": m.group(5),
                      "cls": m.group(7).lstrip("("), "text": txt[m.start():txt.find("\n", m.start())][:600]})
     return ents
@@ -418,7 +476,7 @@ def binary_crosscheck(ctx, lib, ents):
 def run(ctx):
     rng = ctx.rng
     lib = ctx.build_lib("simd")
-    ctx.regen(["Globals"])
+    ctx.regen(["Globals", "GlobalsBin"])
     gen_path = os.path.join(core.COQ, "gen", "GenGlobals.v")
     ents = parse_inventory(gen_path)
     ok = ctx.prove()
@@ -434,7 +492,8 @@ def run(ctx):
         binary_crosscheck(ctx, lib, ents)
 
     exe_t = ctx.cc("c15", ["c15.c"], "tsan")
-    exe_s = ctx.cc("c15", ["c15.c"], "simd")
+    exe_s = ctx.cc("c15np", ["c15.c"], "simd", extra="-no-pie")
+    make_watch_list(ctx, exe_s)
 
     if ctx.replay:
         r = json.load(open(ctx.replay))
